@@ -255,9 +255,12 @@ func lexCommentLine(l *lexer) stateFn {
 	l.pos += Pos(len(leftComment))
 	i := strings.Index(l.input[l.pos:], "\n")
 	if i < 0 {
-		return l.errorf("unclosed comment")
+		// The last line of a text need not end in a line break: the
+		// comment then runs to the end of the input.
+		l.pos = Pos(len(l.input))
+	} else {
+		l.pos += Pos(i + 1)
 	}
-	l.pos += Pos(i + 1)
 	l.ignore()
 	return lexStmt
 }
